@@ -361,3 +361,24 @@ pub struct Case {
     #[serde(default)]
     pub extra: Vec<u64>,
 }
+
+/// The same case with every prefix use stripped of its host-bit noise (metamorphic twin for C18).
+pub fn strip_noise<T: Serialize + serde::de::DeserializeOwned>(c: &T) -> T {
+    fn walk(v: &mut serde_json::Value) {
+        match v {
+            serde_json::Value::Object(m) => {
+                if m.contains_key("noise") && m.contains_key("i") {
+                    m.insert("noise".into(), 0.into());
+                }
+                for (_, x) in m.iter_mut() {
+                    walk(x);
+                }
+            }
+            serde_json::Value::Array(a) => a.iter_mut().for_each(walk),
+            _ => {}
+        }
+    }
+    let mut v = serde_json::to_value(c).expect("serialize case");
+    walk(&mut v);
+    serde_json::from_value(v).expect("deserialize case")
+}
